@@ -157,7 +157,7 @@ func c17Loop(c *Ctx, exec, classify *ssa.Function) {
 			// fast path: its result must be returned directly
 			direct := false
 			for _, r := range *oc.Referrers() {
-				if ret, ok := r.(*ssa.Return); ok && len(ret.Results) == 1 && ret.Results[0] == oc {
+				if ret, ok := r.(*ssa.Return); ok && len(ir.Results(ret)) == 1 && ir.Results(ret)[0] == oc {
 					direct = true
 				}
 			}
@@ -343,8 +343,8 @@ func c17Waits(c *Ctx, exec *ssa.Function) {
 	// the ctx.Done arm returns ctx.Err()
 	retErr := false
 	ir.EachInstr(exec, func(_ *ssa.BasicBlock, _ int, in ssa.Instruction) {
-		if r, ok := in.(*ssa.Return); ok && len(r.Results) == 1 {
-			if oc := originCall(r.Results[0]); oc != nil && ir.CallName(oc) == "(context.Context).Err" && oc.Call.Value == ctxParam {
+		if r, ok := in.(*ssa.Return); ok && len(ir.Results(r)) == 1 {
+			if oc := originCall(ir.Results(r)[0]); oc != nil && ir.CallName(oc) == "(context.Context).Err" && oc.Call.Value == ctxParam {
 				retErr = true
 			}
 		}
